@@ -31,6 +31,9 @@ type Rec struct {
 	// Gate, when set, makes the first SetShareData call park (tape event "setshare-parked") until it is closed.
 	Gate  <-chan struct{}
 	gated bool
+	// Nonce is put into every payload this instance emits: two instances of "the same" session then emit different bytes,
+	// as protocols with fresh randomness do.
+	Nonce string
 	// Hook, when set, is called synchronously at the named points of the instance's life: "init", "setshare", "run".
 	Hook func(point string)
 	// SelfParty, when set, is the party identifier this instance stands for
@@ -177,7 +180,7 @@ func (r *Rec) run(ctx context.Context) error {
 	seq := uint8(0)
 	for _, ph := range r.Script {
 		for i := 0; i < ph.Bcasts; i++ {
-			p := RecPayload(true, ph.Round, r.self(), seq, fmt.Sprintf("b%d;n%d", i, r.Node))
+			p := RecPayload(true, ph.Round, r.self(), seq, fmt.Sprintf("b%d%s;n%d", i, r.Nonce, r.Node))
 			seq++
 			r.Tape.add(Event{Kind: "emit", Node: r.Node, Party: r.Party, Session: r.Session, Bcast: true, Payload: p})
 			r.send(p, true, 0)
@@ -187,7 +190,7 @@ func (r *Rec) run(ctx context.Context) error {
 				if q == r.self() {
 					continue
 				}
-				p := RecPayload(false, ph.Round, r.self(), seq, fmt.Sprintf("to%d;n%d", q, r.Node))
+				p := RecPayload(false, ph.Round, r.self(), seq, fmt.Sprintf("to%d%s;n%d", q, r.Nonce, r.Node))
 				seq++
 				r.Tape.add(Event{Kind: "emit", Node: r.Node, Party: r.Party, Session: r.Session, Bcast: false, To: q, Payload: p})
 				r.send(p, false, q)
